@@ -79,13 +79,15 @@ type shareResult struct {
 
 func drawShareProgram(prog *simrt.Stream, b Bounds) *shareProgram {
 	p := &shareProgram{}
-	switch prog.Draw(3) {
+	switch prog.Draw(4) {
 	case 0:
 		p.c = 2
 	case 1:
 		p.c = 1
-	default:
+	case 2:
 		p.c = 1 + prog.Draw(8)
+	default:
+		p.c = 1 + prog.Draw(4*b.MaxC) // wide shapes: the quantifier does not bound the channel count
 	}
 	maxFrames := 64
 	if b.MaxK > 64 {
